@@ -105,7 +105,7 @@ def gen_spec(rng, trait=None):
                     f["mode"] = "plain"
                 rng.choice(v["fields"])["mode"] = "transparent"
     spec = {"trait": trait, "kind": kind, "variants": variants, "entry": rng.choice(["attr", "derive"]),
-            "where_tr": rng.random() < 0.3, "dv": rng.randrange(nv) if kind == "enum" else 0}
+            "where_tr": rng.random() < 0.3, "dv": rng.randrange(nv) if kind == "enum" else 0, "where_self": rng.random() < 0.25}
     return spec
 
 
@@ -120,6 +120,19 @@ def params_of(spec):
             lt |= t[2]
             assoc |= f["ft"] in ("Assoc", "QAssoc", "QAssocRel")
     return sorted(used), lt, assoc
+
+
+def where_self_ok(spec, used, lt, assoc):
+    return bool(spec.get("where_self")) and list(used) == ["T"] and not lt and not assoc
+
+
+def trg_impls(spec, name):
+    """`T: TrG<Self>` is declared: implement TrG<Name<A>> for every type T is instantiated with (and nothing else)."""
+    g, ga, wh, used, lt, assoc = generics(spec)
+    if "TrG" not in wh:
+        return ""
+    tys = sorted({m["T"] for _, m in instantiations(spec)})
+    return "\n".join(f"impl {D}TrG<{name}<{t}>> for {t} {{}}" for t in tys)
 
 
 def generics(spec):
@@ -141,6 +154,9 @@ def generics(spec):
     wh = ""
     if assoc and spec["where_tr"]:
         wh = f" where T: {D}Tr"
+    if where_self_ok(spec, used, lt, assoc):
+        # `Self` in the generic arguments of a declared bound: TrG<X> is implemented per type by the case itself
+        wh = f" where T: {D}TrG<Self>"
     g = "<" + ", ".join(decl) + ">" if decl else ""
     names = (["'l"] if lt else []) + [p for p in used if p != "N"] + (["N"] if "N" in used else [])
     ga = "<" + ", ".join(names) + ">" if names else ""
@@ -227,7 +243,8 @@ def bounded_types(spec):
 
 def impl_header(spec, name, trait_path, self_ty, extra_where):
     g, ga, wh, used, lt, assoc = generics(spec)
-    preds = ([wh[len(" where "):]] if wh else []) + extra_where
+    # `Self` of the declared where-clause is the type itself also in the impls for `&Type`
+    preds = ([wh[len(" where "):].replace("Self", f"{name}{ga}")] if wh else []) + extra_where
     w = (" where " + ", ".join(preds)) if preds else ""
     return f"impl{g} {trait_path} for {self_ty}{w}"
 
@@ -336,8 +353,8 @@ def probe_exprs(spec, name, inst):
 def render(spec, with_dx=True):
     out = []
     if with_dx:
-        out += [type_text(spec, "X", True), super_impls(spec, "X")]
-    out += [type_text(spec, "W", False), super_impls(spec, "W"), twin_impls(spec, "W"), "pub fn run() {"]
+        out += [type_text(spec, "X", True), super_impls(spec, "X"), trg_impls(spec, "X")]
+    out += [type_text(spec, "W", False), super_impls(spec, "W"), trg_impls(spec, "W"), twin_impls(spec, "W"), "pub fn run() {"]
     for ii, (inst, m) in enumerate(instantiations(spec)):
         for which in (["X", "W"] if with_dx else ["W"]):
             bits = " ".join(f"s.push(::dxrt::bool_c({e}));" for e in probe_exprs(spec, which, inst))
@@ -381,6 +398,13 @@ def core(rng):
             fts = [f for f in fts if concrete_ok(f, t)]
             specs.append({"trait": t, "kind": "struct", "entry": "attr" if k % 2 else "derive", "where_tr": k % 4 == 0, "dv": 0,
                           "variants": [{"style": "tuple" if k % 3 else "named", "fields": [{"ft": f, "mode": "plain"} for f in fts]}]})
+    # a declared where-clause whose bound mentions `Self` in its generic arguments
+    for t in PLAIN + C.BINOPS[:3] + C.ASSIGNOPS[:2] + C.UNOPS:
+        for fts in (["T"], ["OptT", "u8"]):
+            k += 1
+            fts = [f for f in fts if concrete_ok(f, t)]
+            specs.append({"trait": t, "kind": "struct" if (k % 3 or t not in PLAIN) else "enum", "entry": "attr" if k % 2 else "derive", "where_tr": False, "dv": 0, "where_self": True,
+                          "variants": [{"style": "tuple" if k % 2 else "named", "fields": [{"ft": f, "mode": "plain"} for f in fts]}]})
     # unused fields contribute no bound
     for t, mode in (("Debug", "ignore"), ("Debug", "transparent"), ("PartialEq", "ignore"), ("PartialEq", "key"), ("PartialEq", "by"),
                     ("Ord", "key"), ("Ord", "by"), ("Hash", "ignore"), ("Hash", "key"), ("Hash", "by"), ("PartialOrd", "by"), ("Eq", "by"),
